@@ -727,7 +727,7 @@ def apply_edit_to_picture(G, op, allow_dangling=False):
 # ----------------------------------------------------------------------------
 # DAG-shaped models with one fault point per element (C05 / C08 / C16 / C17)
 
-def gen_dag_model(draw, ncells=(4, 7), items=True, uncached=True, none_points=False):
+def gen_dag_model(draw, ncells=(4, 7), items=True, uncached=True, none_points=False, handled=True, uncached_p=5):
     """Build operations for a model whose cells form a DAG of calls.
 
     Cells d0..d<n-1>; d<k> calls 1-3 cells of lower index (by name, by attribute path, or through an
@@ -783,15 +783,24 @@ def gen_dag_model(draw, ncells=(4, 7), items=True, uncached=True, none_points=Fa
                 for part in q:
                     e = ["attr", e, part]
                 tgt = ["attr", e, cn]
-            terms.append(["call", tgt, args, "()"])
-        terms.append(draw(st.sampled_from([["lit", draw(small_int())], ["name", "g0"]])))
+            call = ["call", tgt, args, "()"]
+            if handled and draw(st.integers(0, 3)) == 0:
+                call = ["try", call, ["lit", draw(small_int())]]     # the formula handles a callee's failure itself
+            terms.append(call)
+        terms.append(draw(st.sampled_from([
+            ["lit", draw(small_int())], ["name", "g0"],
+            ["attr", ["attr", ["name", "_model"], "S0"], "r0"],       # reference read by attribute path
+            ["attr", ["name", "_model"], "g0"]])))
+        if draw(st.booleans()):
+            # put the attribute read first so that it happens before the calls
+            terms.insert(1, terms.pop())
         body = terms[0]
         for t in terms[1:]:
             body = ["bin", "+", body, t]
         if none_points and draw(st.integers(0, 4)) == 0:
             body = ["failnone", "N%d" % k, body]
         c = {"name": "d%d" % k, "params": params, "expr": body,
-             "cached": not (uncached and draw(st.integers(0, 4)) == 0),
+             "cached": not (uncached and draw(st.integers(0, uncached_p - 1)) == 0),
              "allow_none": None, "form": draw(st.sampled_from(["lambda", "def"])), "tick": True}
         emit(["new_cells", p, c])
         cells.append((p, c["name"], nparams))
